@@ -37,13 +37,13 @@ def common_kwargs(d, root, with_default=True):
         kw["name"] = d["fname"]
     if d.get("fval", "none") != "none":
         kw["validator"] = FIELD_VALIDATORS[d["fval"]]
-    env = d.get("env", "inherit")
-    if env == "auto":
+    env = d.get("env") or {"m": "inherit"}
+    if env["m"] == "auto":
         kw["env"] = True
-    elif env == "off":
+    elif env["m"] == "off":
         kw["env"] = False
-    elif env not in ("inherit", None):
-        kw["env"] = env
+    elif env["m"] == "name":
+        kw["env"] = "".join(codec.seq(env["n"]))
     return kw
 
 
